@@ -476,6 +476,15 @@ def r195(db, ctx, F):
     ctx.floor('R19.5', n, 4, 'flat view / fill / from_rows')
 
 
+def r196(db, ctx):
+    ctx.rule('R19.6', 'reserve(n) is self.data.reserve(n): the request is forwarded unchanged (it is a number of *additional* rows, and any n is valid)')
+    fs = [f for f in db.fns.values() if f.path.startswith(DM + '::') and f.name == 'reserve' and not f.promoted_of and f.kind == 'AssocFn']
+    if len(fs) != 1:
+        ctx.fail('R19.6', DM, 'reserve', f'reason=anchor-missing: {len(fs)} bodies')
+        return
+    common.forwards(db, ctx, 'R19.6', fs[0], ['Vec::reserve', 'Vec::reserve_exact'], {0: ('fld', ('p', 1), dm_fields(db)['data']), 1: ('p', 2)}, 'DenseMatrix::reserve -> Vec::reserve')
+
+
 def run(db, ctx):
     F = dm_fields(db)
     if not F:
@@ -486,3 +495,4 @@ def run(db, ctx):
     r193(db, ctx, F)
     r194(db, ctx, F)
     r195(db, ctx, F)
+    r196(db, ctx)
